@@ -1528,10 +1528,14 @@ _ical_proc(struct ical_parser_s p[static 1U])
 				p->ve.t.max_simul = p->globve.t.max_simul;
 			}
 			if (!p->ve.t.run_as.u) {
-				/* bang run_as */
-				p->ve.t.run_as = p->globve.t.run_as;
+				/* bang run_as user, and only that, the event's
+				 * own LOCATION and X-ECHS-SHELL live in the
+				 * same struct and must stay */
 				p->ve.t.run_as.u =
 					nummapstr_dup(p->globve.t.run_as.u);
+			}
+			if (!p->ve.t.run_as.g) {
+				/* bang run_as group */
 				p->ve.t.run_as.g =
 					nummapstr_dup(p->globve.t.run_as.g);
 			}
